@@ -191,6 +191,10 @@ structure World where
   reg : Url → RegResp
   tok : Nat → Url → TokResp
   fetch : Url → FetchAnswer      -- by authorization endpoint
+  /-- `AuthorizationCodeHandlerConfig.NewTokenSource` is set AND returns an error in this round (a configured
+  callback, like the fetcher).  When it is set and succeeds the source it returns is the one installed; the
+  harness's constructor wraps `oauth2.Config.TokenSource`, so its expiry behaviour is the default one. -/
+  ntsFails : Bool := false
 
 /-! ### Handler configuration and the 401/403 response -/
 
@@ -262,7 +266,7 @@ inductive Outcome
   | asmUrl | asmFetch | asmIssuer | asmPkce | asmField
   | preIss | reg | noReg
   | fetch | state | issMissing | issMismatch | issUnexpected
-  | exch | post
+  | exch | tsErr | post
 deriving DecidableEq, Repr
 
 /-! ### Protected-resource metadata discovery -/
@@ -395,7 +399,8 @@ structure Result where
   asm : Option AsmDoc := none       -- the metadata in use (document or fall-back)
 deriving Repr
 
-/-- After the fetcher returned: state comparison, RFC 9207 check, exchange, installation, and the
+/-- After the fetcher returned: state comparison, RFC 9207 check, exchange, construction of the token source
+(`NewTokenSource` if configured: its error ends the call with NOTHING installed), installation, and the
 post-installation token read of `updateGrantedScopes`. -/
 def finish (w : World) (a : AsmDoc) (issuer resource : Url) (cred : Cred) (probe : Bool) (pre : List Event) : Result :=
   match w.fetch a.authorizationEndpoint with
@@ -406,8 +411,12 @@ def finish (w : World) (a : AsmDoc) (issuer resource : Url) (cred : Cred) (probe
       | 0 =>
         match exchange w a.tokenEndpoint cred probe with
         | (.fail, l4) => { log := pre ++ l4, outcome := .exch, issuer := some issuer, resource := resource, asm := some a }
-        | (.good, l4) => { log := pre ++ l4, outcome := .ok, installed := true, issuer := some issuer, resource := resource, asm := some a }
-        | (.goodExpired, l4) => { log := pre ++ l4, outcome := .post, installed := true, issuer := some issuer, resource := resource, asm := some a }
+        | (.good, l4) =>
+          if w.ntsFails then { log := pre ++ l4, outcome := .tsErr, issuer := some issuer, resource := resource, asm := some a }
+          else { log := pre ++ l4, outcome := .ok, installed := true, issuer := some issuer, resource := resource, asm := some a }
+        | (.goodExpired, l4) =>
+          if w.ntsFails then { log := pre ++ l4, outcome := .tsErr, issuer := some issuer, resource := resource, asm := some a }
+          else { log := pre ++ l4, outcome := .post, installed := true, issuer := some issuer, resource := resource, asm := some a }
       | 1 => { log := pre, outcome := .issMissing, issuer := some issuer, resource := resource, asm := some a }
       | 2 => { log := pre, outcome := .issMismatch, issuer := some issuer, resource := resource, asm := some a }
       | _ => { log := pre, outcome := .issUnexpected, issuer := some issuer, resource := resource, asm := some a }
@@ -536,7 +545,7 @@ structure Attempt where
 def Attempt.round (a : Attempt) (own : Nat) : Round :=
   { serverUrl := a.serverUrl, inp := a.inp,
     world := { prm := a.world.prm, asm := a.world.asm, reg := a.world.reg, tok := a.world.tok,
-               fetch := fun u => (a.fetchV u).answer own } }
+               fetch := fun u => (a.fetchV u).answer own, ntsFails := a.world.ntsFails } }
 
 /-- A handler with attempts in flight. -/
 structure CHandler where
